@@ -56,6 +56,40 @@ POOL = [
 ]
 
 JREAD_FIXED = {t.strip() for t in ['{}', '{"a": 1}', '{"a": "s"}', '"A"', '{}\n{}', '{"e": "A"}', '{"legs": 4}', '{"xs": [5], "m": {}}', '{"m": {"q": "r"}}', '{"item": {"sku": "z"}}', '{"xss": [[7]]}\n{}\n{}']}
+def _wire(js, datum):
+    """The pool's data in the form the reference encoder takes: a Decimal under a bytes/decimal field becomes the
+    two's-complement bytes of its unscaled value (computed exactly, without a decimal context)."""
+    if not (isinstance(js, dict) and js.get("type") == "record" and isinstance(datum, dict)):
+        return datum
+    out = dict(datum)
+    for f in js["fields"]:
+        t = f["type"]
+        v = out.get(f["name"])
+        if isinstance(t, dict) and t.get("logicalType") == "decimal" and isinstance(v, __import__("decimal").Decimal):
+            sign, digits, exp = v.as_tuple()
+            u = int("".join(map(str, digits)) or "0") * 10 ** (exp + t.get("scale", 0))
+            u = -u if sign else u
+            out[f["name"]] = u.to_bytes((u.bit_length() + 8) // 8, "big", signed=True)
+    return out
+
+
+def _pool_encoding(i, k=0):
+    """Reference encoding of POOL[i]'s k-th good datum under POOL[i]'s own schema (None when it has none)."""
+    js, good, _ = POOL[i]
+    try:
+        node, table = M.resolve(copy.deepcopy(js))
+        return B.encode(node, table, _wire(js, good[k % len(good)]))[0]
+    except Exception:
+        return None
+
+
+def _same_name(js):
+    """Indices of pool entries that define the same top-level name differently."""
+    if not isinstance(js, dict) or "name" not in js:
+        return []
+    return [i for i, (o, _, _) in enumerate(POOL) if isinstance(o, dict) and o.get("name") == js["name"] and o.get("namespace") == js.get("namespace") and o != js]
+
+
 _ADDR = re.compile(r"0x[0-9a-fA-F]+")
 _TMP = re.compile(r"/tmp/[\w./-]+")
 
@@ -343,9 +377,15 @@ class C17(Check):
                 enc = None
                 if node is not None and op in ("sread", "cread", "jread"):
                     try:
-                        enc = B.encode(node, table, d.choice(good))[0]
+                        enc = B.encode(node, table, _wire(js, d.choice(good)))[0]
                     except Exception:
                         enc = None
+                    others = _same_name(js)
+                    if others and op in ("sread", "cread") and d.p(0.25):
+                        # bytes produced under another definition of the same type name (wider decimal, other fixed
+                        # size, other field types): whatever the call makes of them, it must make the same of them
+                        # in a fresh interpreter
+                        enc = _pool_encoding(d.choice(others), d.rng(0, 1)) or enc
                 ropts = {}
                 if d.p(0.35):
                     ropts = d.choice([{"return_record_name": True}, {"return_named_type": True}, {"return_record_name": True, "return_record_name_override": True},
@@ -440,6 +480,18 @@ class C17(Check):
                          {"op": "sread", "schema": copy.deepcopy(ITEM_REF), "data": b"\x06A-1", "reader": None}]}
         yield {"calls": [{"op": "jread", "schema": copy.deepcopy(POOL[14][0]), "text": "{}\n{}"}, {"op": "jread", "schema": {"slot": 0}, "text": "{}"}][:1] + [{"op": "parse", "schema": copy.deepcopy(POOL[14][0]), "slot": 0}, {"op": "jread", "schema": {"slot": 0}, "text": "{}\n{}"}, {"op": "jread", "schema": {"slot": 0}, "text": "{}"}]}
         yield {"calls": [{"op": "parse", "schema": copy.deepcopy(POOL[0][0]), "slot": 1}, {"op": "cwrite", "schema": {"slot": 1}, "records": [{"a": 1}], "codec": "null"}, {"op": "parse", "schema": {"slot": 1}, "slot": 2}][:2] + [{"op": "swrite", "schema": {"slot": 1}, "datum": {"a": 2}}, {"op": "canon", "schema": {"slot": 1}}]}
+
+        # bytes written under one definition of a name, read under it and then under every other definition of that name
+        # (and the other way round), schemaless and from a container
+        for i, (js, _, _) in enumerate(POOL):
+            enc = _pool_encoding(i)
+            if enc is None:
+                continue
+            for j in _same_name(js):
+                other = POOL[j][0]
+                cont = RC.write([([("avro.schema", json.dumps(other).encode())], False)], MARK, [(1, enc)], "null")[0]
+                yield {"calls": [{"op": "sread", "schema": copy.deepcopy(js), "data": enc, "reader": None}, {"op": "sread", "schema": copy.deepcopy(other), "data": enc, "reader": None},
+                                 {"op": "cread", "data": cont, "reader": None}, {"op": "sread", "schema": copy.deepcopy(js), "data": enc, "reader": None}]}
 
     # ------------------------------------------------------------------ oracle
     def run_case(self, case):
